@@ -7,6 +7,7 @@
 #include <string.h>
 #include <signal.h>
 #include <unistd.h>
+#include <sys/wait.h>
 struct CxMem;
 extern const struct CxMem hx_def;
 #define USUAL_ALLOC (&hx_def)
@@ -513,6 +514,39 @@ static void do_line(char *line)
 		r = talloc_set_memlimit(slots[s].ptr, mx);
 		arm(0);
 		dump(r);
+		return;
+	}
+	if (strcmp(w[0], "autofree") == 0 && n == 2) {
+		/* talloc_autofree_context(): the live context again, or a FRESH one after it was freed */
+		char *e; long sl = strtol(w[1], &e, 10);
+		if (*e || e == w[1] || sl < 0 || sl >= MAXSLOT) BAD;
+		p = talloc_autofree_context();
+		if (!p) { dump(-1); return; }
+		if (reg_find((char *)p - THSIZE) < 0) { printf("AUTOFREE-STALE-POINTER\n"); return; }
+		s = slot_of(p);
+		if (s >= 0) {
+			printf("af=same:%d ", s);
+		} else {
+			struct Slot *x = &slots[sl];
+			if (x->used) BAD;
+			x->ptr = p; x->used = x->alive = 1; x->dkind = D_NONE; x->refuse = 0; x->size = 0;
+			x->pat = (unsigned char)(0xA0 + sl);
+			printf("af=new ");
+		}
+		dump(0);
+		return;
+	}
+	if (strcmp(w[0], "exit") == 0 && n == 1) {
+		/* process exit in a forked child: the atexit handler releases the autofree context once */
+		pid_t pid; int st = 0;
+		fflush(stdout);
+		pid = fork();
+		if (pid == 0) {
+			if (!freopen("/dev/null", "w", stdout) || !freopen("/dev/null", "w", stderr)) _exit(99);
+			exit(0);
+		}
+		if (pid < 0 || waitpid(pid, &st, 0) < 0) { printf("exit=fork-failed\n"); return; }
+		printf("exit=%d,%d\n", WIFEXITED(st) ? WEXITSTATUS(st) : -1, WIFSIGNALED(st) ? WTERMSIG(st) : 0);
 		return;
 	}
 	if (strcmp(w[0], "nullon") == 0) {
